@@ -152,6 +152,7 @@ def run(ctx):
 
     visibility_tables(ctx)
     alias_insensitive_drop(ctx, "R10-e")
+    rewritten_run_is_contiguous(ctx, "R10-f")
     C = r.rule("R10-c", "group_imports: every path through one loop iteration pushes the tree into exactly one of the groups")
     gi = p.fn("rustfmt_nightly::reorder::group_imports")
     if gi is None:
@@ -305,3 +306,46 @@ def alias_insensitive_drop(ctx, rid):
                         "treats roots that differ only in their alias as a common prefix and merge_rest returns None (= identical) "
                         "when both paths end there", ["%s:%d" % (mr.file, mr.line), "%s:%d" % (mg.file, mg.line)])
     r.floor(rid, n, 1, "None-returning `both exhausted` paths of merge_rest")
+
+
+def rewritten_run_is_contiguous(ctx, rid):
+    """R10-f / R11-e: the items handed to the group rewriter are exactly the items the replaced span covers"""
+    from common import expr_key
+    p, r = ctx.p, ctx.r
+    r.rule(rid, "every call of rewrite_reorderable_or_regroupable_items(ctx, list, shape, span): `list` is a contiguous sub-slice of "
+                "the walked items (obtained by slice indexing only — no filter / filter_map / collect / retain on the way), and the "
+                "endpoints of `span` are taken from first() / last() of that same list: whatever lies inside the span and is not "
+                "in the list is deleted from the output")
+    n = 0
+    HOLES = ("Iterator::filter", "Iterator::filter_map", "Iterator::collect", "Iterator::skip_while", "Iterator::step_by",
+             "Vec::<T, A>::retain", "Vec::<T, A>::remove", "Vec::<T, A>::swap_remove", "Iterator::partition")
+    for f in p.by_crate["rustfmt_nightly"]:
+        for c in f.calls():
+            if not c.name.endswith("reorder::rewrite_reorderable_or_regroupable_items") or len(c.args) < 4:
+                continue
+            n += 1
+            lst, span = c.args[1], c.args[3]
+            bad = []
+            if lst[0] != "k":
+                d = f.derived_from(lst[1][0])
+                holes = sorted({short(x.declared or x.name).rsplit("::", 1)[-1] for x in d["calls"]
+                                if any((x.declared or "").endswith(h) or x.name.endswith(h) for h in HOLES)})
+                if holes:
+                    bad.append("the list is produced through %s (it may omit items that lie inside the span)" % holes)
+            lkey = expr_key(f, lst)
+            if span[0] != "k":
+                ds = f.derived_from(span[1][0])
+                ends = [x for x in ds["calls"] if x.name.endswith("::first") or x.name.endswith("::last")]
+                other = [x for x in ends if x.args and expr_key(f, x.args[0]) != lkey
+                         and lkey not in expr_key(f, x.args[0]) and expr_key(f, x.args[0]) not in lkey]
+                if len(ends) < 2:
+                    bad.append("the span is not built from first()/last() of the list")
+                elif other:
+                    bad.append("the span endpoints come from a different list than the one rewritten")
+            key = "%s: rewritten run" % short(f.root or f.id)
+            r.instance(rid, key, "ok" if not bad else "violation", c.loc(), "; ".join(bad))
+            if bad:
+                r.violation(rid, "%s: rewritten items and replaced span disagree" % short(f.root or f.id),
+                            "%s: the text of the span is replaced by the rewrite of the list, so an import / mod / extern crate "
+                            "inside the span but not in the list disappears" % "; ".join(bad), [c.loc()])
+    r.floor(rid, n, 1, "calls of rewrite_reorderable_or_regroupable_items")
